@@ -430,7 +430,8 @@ def main(tier):
         vs.sort(key=lambda v: (len(v['shape']), sum(v['shape'])))
         got = None
         for i, v in enumerate(vs[:8]):
-            confirm(binary, v, i)
+            if not v.get('main'):        # main-wiring violations were replayed by mainwire.add_to
+                confirm(binary, v, i)
             if v.get('confirmed'):
                 got = v
                 break
